@@ -1,8 +1,9 @@
 import Biogo.Properties.C11_checker
 open Biogo.Properties.C11_checker
-#print axioms checkCycle_none_iff
 #print axioms checkCycle_sound
-#print axioms checkCycle_complete
 #print axioms checkHistory_sound
+#print axioms historyStatement_sound
 #print axioms checkHistory_complete
 #print axioms checkHistory_iff
+#print axioms rejectsStatement_sound
+#print axioms programStatement_sound
